@@ -4,7 +4,7 @@
 // ORD enumerated, one mutation KIND enumerated, mutation parameters symbolic) and read by the library.
 // Harness A (all byte strings vs. reference decoder incl. duplicate detection, per-entry frame, skipping of
 // unknown/deleted ids) is C04's lang_harness on the table types; it is instantiated here for the framing table.
-//@tu unwind=12 memunwind=60 loop:ReadEntries=6
+//@tu unwind=12 memunwind=70 loop:ReadEntries=6
 //@h _n(\d+)$ : loop:ReadEntries=7
 #include "rd.h"
 
